@@ -56,6 +56,16 @@ def reset_pool():
 TABLE_CLS = None
 
 
+def _first_join(q):
+    """the join term a builder holds (found by its class, whatever the builder calls the list)"""
+    from pypika_tortoise.queries import Join
+
+    for v in vars(q).values():
+        if isinstance(v, list) and v and isinstance(v[0], Join):
+            return v[0]
+    raise LookupError("no join term found on the builder")
+
+
 def _select_only(r):
     """only a SELECT is embedded as a subquery (an upsert's alias, for one, is MySQL's row alias: another meaning)"""
     if not str(r).lstrip("(").upper().startswith(("SELECT", "WITH")):
@@ -305,9 +315,9 @@ def families() -> dict[str, Family]:
         L("negate", "negate", lambda r: r.negate()),
     ])
     fams["join"] = Family("join", {
-        "on": lambda: Q.from_(t1).join(t2).on(t1.a == t2.a)._joins[0],
-        "using": lambda: Q.from_(t1).join(t2).using("a")._joins[0],
-        "cross": lambda: Q.from_(t1).join(t2).cross()._joins[0],
+        "on": lambda: _first_join(Q.from_(t1).join(t2).on(t1.a == t2.a)),
+        "using": lambda: _first_join(Q.from_(t1).join(t2).using("a")),
+        "cross": lambda: _first_join(Q.from_(t1).join(t2).cross()),
     }, [
         L("replace_table", "replace_table", lambda r: r.replace_table(t2, T("t2new"))),
         L("replace_table#1", "replace_table", lambda r: r.replace_table(t1, T("t1new"))),
